@@ -3,8 +3,10 @@ use crate::fw::{LaneCtx, Verdict};
 use serde_json::Value;
 
 pub mod c06;
+pub mod c09;
 pub mod c12;
 pub mod c13;
+pub mod c15;
 pub mod c16;
 pub mod c20;
 
@@ -28,8 +30,10 @@ macro_rules! registry {
 
 registry! {
     "C06" => c06,
+    "C09" => c09,
     "C12" => c12,
     "C13" => c13,
+    "C15" => c15,
     "C16" => c16,
     "C20" => c20,
 }
